@@ -469,3 +469,8 @@ V('C08', 'sigops-skip-data-pushes-early', SCRIPT, "            for (opcode, data
 V('C12', 'case-checked-on-data-part-only', SEGWIT, "            (bech.lower() != bech and bech.upper() != bech)):", "            (bech[bech.rfind('1'):].lower() != bech[bech.rfind('1'):] and bech[bech.rfind('1'):].upper() != bech[bech.rfind('1'):])):", 'C12.R1', scope='bech32_decode')
 V('C14', 'sign-compact-compresses-the-key', KEY, "        pubkey = CECKey()\n        pubkey.set_pubkey(self.get_pubkey())\n        pubkey.set_compressed(True)", "        self.set_compressed(True)\n        pubkey = CECKey()\n        pubkey.set_pubkey(self.get_pubkey())\n        pubkey.set_compressed(True)", 'C14.K2', scope='CECKey.sign_compact')
 V('C18', 'unknown-command-returns-before-payload', MSG, "        msglen = struct.unpack(b\"<I\", recvbuf[4+12:4+12+4])[0]\n", "        msglen = struct.unpack(b\"<I\", recvbuf[4+12:4+12+4])[0]\n        if command not in messagemap:\n            return None\n", 'C18.D1', scope='MsgSerializable.stream_deserialize')
+V('C08', 'p2sh-indexes-before-length', SCRIPT, "        return (len(self) == 23 and\n                self[0] == OP_HASH160 and", "        return (self[0] == OP_HASH160 and\n                len(self) == 23 and", 'C08.I2', scope='CScript.is_p2sh')
+V('C12', 'bare-pubkey-template-indexes-before-length', WALLET, "            if (len(scriptPubKey) == 35 # compressed\n                  and scriptPubKey[0]  == 0x21", "            if (scriptPubKey[0]  == 0x21\n                  and len(scriptPubKey) == 35 # compressed", 'C12.I2', scope='P2PKHBitcoinAddress.from_scriptPubKey')
+V('C13', 'wif-compression-marker-without-length-test', WALLET, "CKey.__init__(self, self[0:32], len(self) > 32 and self[32] == 1)", "CKey.__init__(self, self[0:32], self[32] == 1)", ['C13.I2', 'C13.L1'], scope='CBitcoinSecret.__init__')
+V('C14', 'recover-compact-header-before-length-test', KEY, "        if len(sig) != 65:\n            raise ValueError(\"Signature should be 65 characters, not [%d]\" % (len(sig), ))\n\n        recid = (sig[0] - 27) & 3",
+  "        recid = (sig[0] - 27) & 3\n        if len(sig) != 65:\n            raise ValueError(\"Signature should be 65 characters, not [%d]\" % (len(sig), ))\n", 'C14.I2', scope='CPubKey.recover_compact')
